@@ -13,7 +13,7 @@ EXPLANATION = ("Real tcp Server/ServerTls with two accepted connections A and B,
                "ETIMEDOUT, ECONNREFUSED} and realised before the OSError is built (Python maps the errno to its subclass, e.g. "
                "BrokenPipeError, at construction, which hio relies on), every value being explored through the path tree; TLS EOF (SSLEOFError / SSL_ERROR_EOF), SSLError and ECONNABORTED during handshakes and a "
                "peer close (recv -> b'') are driver cases; a further form resets A while its last bytes are still readable (recv returns "
-               "them, the descriptor already reports ENOTCONN, the next recv reports ECONNRESET), with and without a wire log attached. After the fault the kernel reports the descriptor as not connected (getpeername "
+               "them, the descriptor already reports ENOTCONN, the next recv reports ECONNRESET), with and without a wire log attached; and a form in which a client resets before its accepted socket is serviced (accept() hands out a socket that is not connected any more). After the fault the kernel reports the descriptor as not connected (getpeername "
                "raises ENOTCONN, as after a real reset). Oracle: service() returns normally; A is marked cutoff (aborted for a handshake "
                "in progress); bytes queued for B are delivered and B's incoming bytes received in the same and the next service call.")
 FUNCTIONS = [('hio.core.tcp.clienting', 'Client.service'), ('hio.core.tcp.clienting', 'Client.send'), ('hio.core.tcp.clienting', 'Client.receive'),
@@ -23,10 +23,10 @@ FUNCTIONS = [('hio.core.tcp.clienting', 'Client.service'), ('hio.core.tcp.client
              ('hio.core.tcp.serving', 'Remoter.receive'), ('hio.core.tcp.serving', 'RemoterTls.send'), ('hio.core.tcp.serving', 'RemoterTls.receive'),
              ('hio.core.tcp.serving', 'RemoterTls.handshake'), ('hio.core.tcp.serving', 'ServerTls.serviceCxes')]
 BOUNDS = {'quick': dict(calls=2, budget_s=120, audit_max=6), 'thorough': dict(calls=6, budget_s=600, audit_max=20)}
-OUTSIDE = ['errnos outside the property set (they are meant to be re-raised)', 'real kernel RST timing / real OpenSSL', 'more than one fault per run', 'faults on the listen socket']
+OUTSIDE = ['errnos outside the property set (they are meant to be re-raised)', 'real kernel RST timing / real OpenSSL', 'more than one fault per run', 'faults raised by accept() itself on the listen socket']
 STUBS = ['FakeNet sockets with a fault-injecting send/recv policy; FakeCtx/FakeTLSSock handshake scripts; after a fault the descriptor reports ENOTCONN on getpeername']
 ASSUMPTIONS = ['an OSError raised by the kernel carries the errno as args[0] and .errno; SSLEOFError carries SSL_ERROR_EOF (8) there']
-REQUIRED_TAGS = ['reset-with-data-readable', 'wirelog-attached', 'fault-on-send', 'fault-on-recv', 'peer-close', 'tls-eof-data', 'tls-handshake-eof', 'tls-handshake-aborted', 'sibling-has-traffic', 'second-call-faults']
+REQUIRED_TAGS = ['reset-before-accept-serviced', 'reset-with-data-readable', 'wirelog-attached', 'fault-on-send', 'fault-on-recv', 'peer-close', 'tls-eof-data', 'tls-handshake-eof', 'tls-handshake-aborted', 'sibling-has-traffic', 'second-call-faults']
 SOLVER_ROLE = 'enumeration of the finite fault set, call positions and handshake scripts through the solver-maintained path tree'
 RULE = 'tags: where the fault hits (send / recv / handshake / data-phase TLS EOF / peer close) and that the sibling connection has traffic'
 ERRNOS = [errno.ECONNRESET, errno.EPIPE, errno.ENETRESET, errno.ENETUNREACH, errno.EHOSTUNREACH, errno.ENETDOWN, errno.EHOSTDOWN, errno.ETIMEDOUT, errno.ECONNREFUSED]
@@ -48,6 +48,7 @@ def partitions(tier):
     for cls in ('Server', 'ServerTls'):
         for where in ('send', 'recv'):
             ps.append(dict(name='%s-%s-reset-with-data' % (cls, where), cls=cls, where=where, fault='resetdata', calls=b['calls']))
+        ps.append(dict(name='%s-reset-before-accept' % cls, cls=cls, where='accept', fault='acceptdead', calls=b['calls']))
     return ps
 
 
@@ -235,6 +236,51 @@ def harness_server_reset_with_data(sym, part):
     return None
 
 
+def harness_server_accept_dead(sym, part):
+    """a client connects and resets at once: accept() still hands the socket out (Linux), but it is not connected any more
+    (getpeername -> ENOTCONN, confirmed on the real kernel); a healthy connection B arrives before or after it"""
+    net = fakenet.FakeNet()
+    tls = part['cls'] == 'ServerTls'
+    with fakenet.Patch(net, serving):
+        srv = serving.ServerTls(ha=('127.0.0.1', 6101), context=fakenet.FakeCtx(script=['ok'])) if tls else serving.Server(ha=('127.0.0.1', 6101))
+        assert srv.reopen()
+        b_first = sym.cbool('healthy_first')
+        if b_first:
+            b = net.incoming(srv.ss, ('10.0.0.2', 4002))
+        a = net.incoming(srv.ss, ('10.0.0.1', 4001))
+        a.dead = True
+        a.inq.append(('err', ConnectionResetError(errno.ECONNRESET, 'reset')))
+        if not b_first:
+            b = net.incoming(srv.ss, ('10.0.0.2', 4002))
+        sym.cover('reset-before-accept-serviced')
+        sym.cover('sibling-has-traffic')
+        try:
+            srv.service()
+            if tls:
+                srv.service()
+            ixb = srv.ixes.get(('10.0.0.2', 4002))
+            if ixb is None:
+                return Failure('%s:accept:reset-before-accept:sibling-not-accepted' % part['cls'], 'healthy connection B never reached .ixes')
+            ixb.tx(b'to-B')
+            ixb.cs.inq.append(b'from-B')
+            for _ in range(3):
+                srv.service()
+        except Exception as ex:
+            from vf.engine.symx_guard import guard
+            guard(ex)
+            return Failure('%s:accept:reset-before-accept:escapes-service' % part['cls'],
+                           lambda ex=ex: '%s raised out of %s.service(): %s' % (type(ex).__name__, part['cls'], exc_text(sym, ex)))
+        ixa = srv.ixes.get(('10.0.0.1', 4001))
+        if ixa is not None and not ixa.cutoff:
+            return Failure('%s:accept:reset-before-accept:not-cutoff' % part['cls'], 'the reset connection is served and not marked cutoff')
+        if bytes(ixb.cs.wire) != b'to-B' or bytes(ixb.rxbs) != b'from-B':
+            return Failure('%s:accept:reset-before-accept:sibling-starved' % part['cls'], lambda: 'sibling B: peer got %r, server received %r' % (bytes(ixb.cs.wire), bytes(ixb.rxbs)))
+        srv.close()
+        if not a.closed:
+            return Failure('%s:accept:reset-before-accept:socket-left-open' % part['cls'], 'the accepted, already reset socket is still open after Server.close()')
+    return None
+
+
 def harness_client(sym, part):
     net = fakenet.FakeNet()
     tls = part['cls'] == 'ClientTls'
@@ -285,6 +331,8 @@ def harness_client(sym, part):
 
 
 def harness(sym, part):
+    if part['fault'] == 'acceptdead':
+        return harness_server_accept_dead(sym, part)
     if part['fault'] == 'resetdata':
         return harness_server_reset_with_data(sym, part)
     if part['cls'].startswith('Server'):
